@@ -98,6 +98,16 @@ def strip_indices(label, keepco):
     return out + head
 
 
+def coindex_of(label):
+    """Co-index of a label LABEL(-GF)?(=n)?(-n)?'? ('' if none)."""
+    a, b = strip_indices(label, True), strip_indices(label, False)
+    if a == b:
+        return ""
+    if b.endswith("'") and len(b) > 1:
+        a = a[:-1]
+    return a[a.rfind("-") + 1:]
+
+
 def ref_delete_traces(sent, params):
     keep = params["keep"].split(",") if "keep" in params else []
     keepall = "keepall" in params
@@ -460,6 +470,28 @@ def judge_call(c, files, rec, st):
             if got_tr - want_tr:
                 return cm.viol("C11/ptb_delete_traces/slash/trace-not-asked-for-remains",
                                params=params, extra=sorted((got_tr - want_tr).elements()))
+            # ... and the other way round: the annotation removes a trace only when it has no
+            # filler.  A trace that was asked for and carries no co-index, or whose co-index
+            # is that of a constituent which survives the deletions, stays
+            p2 = dict((k, v) for k, v in params.items() if k != "slash")
+            p2["keepcoindex"] = True
+            surv = ref_delete_traces(sent, p2)
+            if surv is not None:
+                keep = params["keep"].split(",") if "keep" in params else []
+                cos = set(coindex_of(c[0]) for c in model.constituents(surv["root"])) - {""}
+                must = Counter()
+                for t in sent["tokens"]:
+                    if t[1] != "-NONE-":
+                        continue
+                    if "keepall" in params or strip_indices(t[0], False) in keep:
+                        co = coindex_of(t[0])
+                        if co == "" or co in cos:
+                            must[strip_indices(t[0], "keepcoindex" in params)] += 1
+                if must:
+                    st.probe("slash_kept_trace_with_filler")
+                if must - got_tr:
+                    return cm.viol("C11/ptb_delete_traces/slash/kept-trace-with-filler-deleted",
+                                   params=params, missing=sorted((must - got_tr).elements()))
             want_lab = Counter(c[0] for c in model.constituents(exp["root"]))
             got_lab = Counter(c[0].split("/")[0] for c in model.constituents(got["root"]))
             if got_lab - want_lab:
@@ -539,6 +571,7 @@ def execute(sc, sim):
                "other_sentence_ids_only", "punctuation_only_sentence", "keep_with_keepcoindex",
                "tree_filtered_out", "two_sessions_interleaved", "slash_annotation_judged",
                "slash_annotation_present", "slash_annotation_rejected",
+               "slash_kept_trace_with_filler",
                "all_tokens_are_deleted_traces")
     spec = build_spec(sc)
     obs = sim.run(spec)
